@@ -41,6 +41,8 @@ def run(ck, ctx):
                      "file at its first undecodable entry, and the per-file recovery loop neither returns on an unreadable file nor ends "
                      "before the last file (a write reported durable lives in *some* file: a recovery that gives up at a damaged "
                      "neighbour loses it) - shared with C10 R10.1 / R10.3")
+    from . import c10 as _c10t
+    ck.rule("R09.11", _c10t.NAME_TEXT + " (shared with C10 R10.10: an fsynced file that the start-up scan does not recognise is neither replayed nor protected from being re-created)")
     ck.rule("R09.10", "truncation never deletes an fsynced entry that has not been streamed: every WalStore::delete in truncate_before is "
                       "guarded by `not the active file` and by `max over ALL entries of the file <= the streamed mark` (append order is "
                       "arrival order of 16 independent shard clocks, not stamp order: the last entry is not the newest) - shared with C10 R10.4")
@@ -64,6 +66,7 @@ def run(ck, ctx):
         _c10._r101(_Alias(ck, "R10.1", "R09.9", skip=("R10.2",)), prog, cfg)
         _c10._r103(_Alias(ck, "R10.3", "R09.9"), prog, cfg)
         _c10.r109(ck, prog, cfg, "R09.9")
+        _c10.r1010(ck, prog, cfg, "R09.11")
         _c10.file_loop_rule(ck, prog, cfg, "R09.9")
 
 
